@@ -455,6 +455,24 @@ SER_BYTE_CALLS = {
 }
 
 
+# std-library calls that only re-view or copy the same bytes, by method name (receiver type does not matter for these)
+STD_VIEW_NAMES = {"as_ref", "as_slice", "as_bytes", "borrow", "deref", "clone", "index", "from_ref", "to_be_bytes", "octets", "to_vec", "to_owned", "as_array",
+                  "first_chunk", "copied", "cloned", "into_inner"}
+INT_TYPES = {"u8", "i8", "u16", "i16", "u32", "i32", "u64", "i64", "usize", "isize"}
+
+
+def _std_view(body, call, nm):
+    if nm.split("::")[0] not in ("core", "alloc", "std"):
+        return False
+    last = nm.split("::")[-1]
+    if last in STD_VIEW_NAMES:
+        return True
+    # `u8::from(flag)`, `i64::from(x)`: a lossless widening into a primitive integer
+    if last in ("from", "into") and not call.dest[1] and body.local_ty(call.dest[0]) in INT_TYPES:
+        return True
+    return False
+
+
 def r8(ctx, facts):
     r = ctx.rule("R8", "carriers hand CellWriter::set_value the value's own bytes (only representation accessors between the value and the bytes)", floor=18)
     for im in [i for i in facts.impls if i.get("trait_def") == SV and i["crate"] == "scylla_cql_core"]:
@@ -469,12 +487,33 @@ def r8(ctx, facts):
                 _, calls, _ = backward_slice(fb, c.args[1])
                 for x in calls:
                     nm = x.callee.get("def") or x.name or "?"
-                    if nm not in SER_BYTE_CALLS:
+                    if nm not in SER_BYTE_CALLS and not _std_view(fb, x, nm):
                         odd.add(nm)
         if n:
             r.instance("bytes-of:" + norm_self(im["self"]), not odd,
                        "serialize for %s derives the bytes it writes through %s, which is not a plain representation accessor: some values would be encoded as a different value" % (im["self"], sorted(odd)),
                        "%s:%s" % (im["file"], im["span"][1]))
+
+
+def r9(ctx, facts):
+    r = ctx.rule("R9", "a zero-length vector element decodes as an empty value: read_n_bytes (which reports an exhausted slice as null) is never asked for 0 bytes", floor=1)
+    b = facts.one(r"^scylla_cql_core::deserialize::value::VectorIterator::<'frame, 'metadata, T>::next_variable_length_elem$")
+    n = 0
+    for body in closure_family(facts, b):
+        dj = dj_of(body, facts)
+        for c in body.calls_to("FrameSlice::<'frame>::read_n_bytes", "FrameSlice::read_n_bytes"):
+            n += 1
+            op = c.args[1]
+            ok = False
+            if op[0] in ("c", "m"):
+                key = ("val", dj.canon.path(op[1]))
+                sts = dj.states.get(c.bb, ())
+                ok = bool(sts) and all((lambda v: v is not None and ((v[0] == "notin" and 0 in v[1]) or (v[0] == "in" and 0 not in v[1])))(dict(fs).get(key)) for fs in sts)
+            r.instance("no-zero-length-read", ok,
+                       "FrameSlice::read_n_bytes(size) is reached with a size that may be 0: for the LAST element of a vector the slice is then empty and the element comes back as null "
+                       "(`vector<text, 2>` [\"a\", \"\"] serialized by the driver itself fails to deserialize with ExpectedNonNull); a zero-length element must yield an empty slice", c.span)
+    if n == 0:
+        raise AnchorLost("VectorIterator::next_variable_length_elem: no FrameSlice::read_n_bytes call found")
 
 
 def check(ctx):
@@ -485,7 +524,7 @@ def check(ctx):
         tabs = r1(ctx, facts, A)
     except AnchorLost as ex:
         ctx.rule("R1x", "anchors").fail("anchor-lost", str(ex))
-    for fn in ((lambda c, f: r2(c, f, tabs)) if tabs else None, r3, r4, r5, r6, r7, r8):
+    for fn in ((lambda c, f: r2(c, f, tabs)) if tabs else None, r3, r4, r5, r6, r7, r8, r9):
         if fn is None:
             continue
         try:
